@@ -85,7 +85,8 @@ def block_case(work, geom, proc_crs, overlap, max_block_mem=None, nbands=1, tag=
                                src_out_bounds=list(reader._src_im.window_bounds(bp.src_out_block)),
                                ref_out_bounds=list(reader._ref_im.window_bounds(bp.ref_out_block))))
         res.update(case=[float(x) for x in enc], blocks=blocks,
-                   src_res=float(reader._src_im.res[0]), ref_res=float(reader._ref_im.res[0]))
+                   src_res=float(reader._src_im.res[0]), ref_res=float(reader._ref_im.res[0]),
+                   src_res_xy=[float(v) for v in reader._src_im.res], ref_res_xy=[float(v) for v in reader._ref_im.res])
     return res
 
 
@@ -125,14 +126,19 @@ def tiling_oracle(res):
         # it by less than one other-grid pixel; out windows agree to half an other-grid pixel
         sb, rb = b['src_in_bounds'], b['ref_in_bounds']
         (ob, pb, ores) = (sb, rb, sres) if res['proc_is_ref'] else (rb, sb, rres)
-        tol = 1e-6 * ores
-        contains = ob[0] <= pb[0] + tol and ob[1] <= pb[1] + tol and ob[2] >= pb[2] - tol and ob[3] >= pb[3] - tol
-        excess = max(pb[0] - ob[0], pb[1] - ob[1], ob[2] - pb[2], ob[3] - pb[3])
-        if not contains or excess > ores + tol:
+        # (bounds are (left, bottom, right, top): the other grid's pixel width judges x, its pixel height y - they differ for non-square pixels)
+        oxy = (res.get('src_res_xy') if res['proc_is_ref'] else res.get('ref_res_xy')) or [ores, ores]
+        ax = [oxy[0], oxy[1], oxy[0], oxy[1]]
+        tol = [1e-6 * a for a in ax]
+        contains = ob[0] <= pb[0] + tol[0] and ob[1] <= pb[1] + tol[1] and ob[2] >= pb[2] - tol[2] and ob[3] >= pb[3] - tol[3]
+        exc = [pb[0] - ob[0], pb[1] - ob[1], ob[2] - pb[2], ob[3] - pb[3]]
+        excess = max(exc)
+        if not contains or any(e > a + t for e, a, t in zip(exc, ax, tol)):
             viol.append(dict(what='paired input windows do not cover the same ground', block=b, excess=excess))
         so, ro = b['src_out_bounds'], b['ref_out_bounds']
-        d = max(abs(x - y) for x, y in zip(so, ro))
-        if d > 0.5 * ores + tol:
+        dd = [abs(x - y) for x, y in zip(so, ro)]
+        d = max(dd)
+        if any(v > 0.5 * a + t for v, a, t in zip(dd, ax, tol)):
             viol.append(dict(what='paired output windows differ by more than half a pixel', block=b, diff=d))
     return viol
 
